@@ -71,3 +71,19 @@ package executor
 //@   opt safety=assumed
 //@   ensures result == nil ==> called(CheckTxsBlockedAccount) && ret(CheckTxsBlockedAccount) == nil
 //@   assert@call CheckTxsBlockedAccount: arg0 == e.cfg && arg1 == e.height && arg2 == ret(GetTxs)
+
+// ---- C11 / C12: the state DB records every key a transaction writes -------------------------------
+// (execTxOne compares this list with the keys reported in the receipt)
+//@ func (*StateDB).Set [C11,C12]
+//@   opt safety=assumed overflow=assumed
+//@   ensures result == nil
+//@   ensures old(s.intx) ==> len(s.keys) == old(len(s.keys)) + 1 && s.keys[old(len(s.keys))] == bytes(key)
+//@   ensures old(s.intx) ==> forall j :: 0 <= j && j < old(len(s.keys)) ==> s.keys[j] == old(s.keys[j])
+//@   ensures !old(s.intx) ==> len(s.keys) == old(len(s.keys))
+
+//@ func (*StateDB).StartTx [C11,C12]
+//@   ensures len(s.keys) == 0
+
+//@ func (*StateDB).GetSetKeys [C11,C12]
+//@   frame nothing
+//@   ensures result == s.keys
